@@ -194,6 +194,130 @@ def mem_scenarios(tier="quick"):
     return [Scenario("Blob::read any descriptor (any length) over a device of <= 2 pages: memory bound", blob_read_mem_scenario(2), blob_read_mem_claims, max_paths=800, replayer=rp)]
 
 
+# ------------------------------------------------------------------------------------------------ C06: the public entry E57Reader::blob, completeness
+def blob_e57_scenario(max_len=3000):
+    """E57Reader::blob (the public entry, with a file header that states the true file length) over ANY device on which a blob
+    section of the shape the writer produces (and the format prescribes: id 0, reserved bytes zero, length field) lies entirely
+    inside the file on valid pages — wherever that is, also directly at the end of the file"""
+    def scen(I):
+        init_interp(I)
+        s = mk_abs_reader(I)
+        I.last_state = s
+        s.boff, s.blen = fresh("blob_off"), fresh("blob_len")
+        I.path.assume(z3.ULE(s.blen, U64(max_len)))
+        fo, fl = blob_fields(I)
+        fields = [None, None]
+        fields[fo], fields[fl] = s.boff, s.blen
+        s.holder["blob"] = Agg("struct", fields, "Blob")
+        s.holder["sink"] = SinkDev()
+        hn = I.struct_fields["Header"]
+        hf = [None] * len(hn)
+        hf[hn.index("phys_length")], hf[hn.index("page_size")] = s.npages * U64(PAGE), U64(PAGE)
+        hf[hn.index("phys_xml_offset")], hf[hn.index("xml_length")] = fresh("hdr_xml_off"), fresh("hdr_xml_len")
+        en = I.struct_fields["E57Reader"]
+        ef = [None] * len(en)
+        ef[en.index("reader")] = s.r
+        ef[en.index("header")] = Agg("struct", hf, "Header")
+        s.holder["e"] = Agg("struct", ef, "E57Reader")
+        s.holder["r"] = None
+        s.res = I.call_fn(I.methods[("E57Reader", None, "blob")], [Ref(Loc(s.holder, "e")), Ref(Loc(s.holder, "blob")), Ref(Loc(s.holder, "sink"))])
+        s.sink = s.holder["sink"]
+        return s
+    return scen
+
+
+def blob_e57_claims(s, I):
+    out = blob_read_claims(s, I)
+    l0 = logical(s.boff)
+    D = s.D
+    wellformed = z3.And(z3.ULT(dm.urem(s.boff, PAGE), U64(PAYLOAD)),                                   # the offset does not point into checksum bytes
+                        *[D(l0 + U64(b)) == z3.BitVecVal(0, 8) for b in range(8)],                        # section id 0, reserved bytes zero
+                        z3.Concat(*[D(l0 + U64(8 + b)) for b in range(7, -1, -1)]) == s.blen,             # length field as the writer stores it
+                        z3.ULE(l0 + U64(16) + s.blen, s.npages * U64(PAYLOAD)))                           # header and data inside the file
+    j = z3.BitVec("q_page", 64)          # bound variable (not a skolem: the premise quantifies over the pages the section touches)
+    cn, cl, cb = z3.simplify(s.npages), z3.simplify(l0), z3.simplify(s.blen)
+    if z3.is_bv_value(cn) and z3.is_bv_value(cl) and z3.is_bv_value(cb):
+        # native re-evaluation: everything is concrete, enumerate the pages
+        lo, hi = cl.as_long() // PAYLOAD, (cl.as_long() + 16 + cb.as_long()) // PAYLOAD
+        pages_ok = z3.And(*[s.valid(U64(k)) for k in range(lo, min(hi, cn.as_long() - 1) + 1)]) if lo <= min(hi, cn.as_long() - 1) else z3.BoolVal(True)
+    else:
+        pages_ok = None
+    pages_ok = pages_ok if pages_ok is not None else z3.ForAll([j], z3.Implies(z3.And(z3.ULE(dm.udiv(l0, PAYLOAD), j), z3.ULE(j, dm.udiv(l0 + U64(16) + s.blen, PAYLOAD)), z3.ULT(j, s.npages)), s.valid(j)))
+    out.append(("a well-formed blob section that lies inside the file on valid pages is delivered (Ok), wherever it lies", z3.Implies(z3.And(wellformed, pages_ok), z3.BoolVal(s.res.vname == "Ok"))))
+    return out
+
+
+def _be_op(pre):
+    return ("let blob = crate::blob::Blob::new(%d, %d); let mut sink: Vec<u8> = Vec::new(); "
+            "let hdr = crate::Header { phys_length: r.verif_dev_len(), ..Default::default() }; "
+            "let mut e = crate::E57Reader::verif_from_parts(r, hdr); "
+            "match e.blob(&blob, &mut sink) { Ok(m) => println!(\"VR res=ok:{}\", m), Err(_) => println!(\"VR res=err\") } println!(\"VR sink={}\", vhex(&sink)); "
+            "let r = e.verif_into_reader();" % (pre["boff"], pre["blen"]))
+
+
+E57_PARTS_HELPER = r"""
+#[cfg(test)]
+impl<T: std::io::Read + std::io::Seek> E57Reader<T> {
+    pub(crate) fn verif_from_parts(reader: crate::paged_reader::PagedReader<T>, header: crate::Header) -> Self {
+        Self { reader, header, xml: String::new(), root: Default::default(), pointclouds: Vec::new(), images: Vec::new(), extensions: Vec::new() }
+    }
+    pub(crate) fn verif_into_reader(self) -> crate::paged_reader::PagedReader<T> { self.reader }
+}
+"""
+PR_LEN_HELPER = r"""
+#[cfg(test)]
+impl<T: std::io::Read + std::io::Seek> PagedReader<T> {
+    pub(crate) fn verif_dev_len(&self) -> u64 { self.phy_file_size }
+}
+"""
+
+
+class BlobE57Replay(AbsReaderReplay):
+    def run(self, I, scenario, claim_name, pre):
+        from .spec_page import READER_DRIVER
+        from .replay import HELPERS, native_panicked, parse_kv, run_rust_test
+        from .spec_page import FRESH_OVERRIDE
+        drv = READER_DRIVER % dict(helpers=HELPERS, dev=rust_bytes(pre["dev"]), cached=pre["cached"], offset=pre["offset"], op=self.op_rust(pre), fault_at=-1, shorts="")
+        drv = drv.replace("let mut r = ", "let mut r = ", 1)
+        code = {"paged_reader.rs": drv + PR_LEN_HELPER, "e57_reader.rs": E57_PARTS_HELPER}
+        rc, out = run_rust_test(I.crate_dir, None, code)
+        kv = parse_kv(out)
+        info = dict(pre={k: (len(v) if isinstance(v, bytes) else v) for k, v in pre.items()}, rust=drv)
+        pan = native_panicked(out)
+        if claim_name == "no panic":
+            return (pan is not None and "pre_offset" in kv), "native: " + (pan or "no panic"), info
+        if pan or "post_offset" not in kv:
+            return False, "native run did not complete: " + (pan or out[-600:]), info
+        try:
+            FRESH_OVERRIDE.clear()
+            FRESH_OVERRIDE.update(pre["sk"])
+            obs = self.rebuild_obs(I, pre, kv)
+            vals = {}
+            for name, c in scenario.claims(obs, I):
+                c = z3.simplify(c) if not isinstance(c, bool) else z3.BoolVal(c)
+                if not (z3.is_true(c) or z3.is_false(c)):
+                    sv = z3.Solver()
+                    sv.set("timeout", 20000)
+                    sv.add(z3.Not(c))
+                    r_ = sv.check()
+                    c = z3.BoolVal(True) if r_ == z3.unsat else (z3.BoolVal(False) if r_ == z3.sat else c)
+                vals[name] = True if z3.is_true(c) else (False if z3.is_false(c) else None)
+        finally:
+            FRESH_OVERRIDE.clear()
+        info["native_claims"] = vals
+        if vals.get(claim_name) is False:
+            return True, "claim is false on the native post-state", info
+        other = [k for k, v in vals.items() if v is False]
+        if other:
+            return True, "on the native run of this counterexample the claim '%s' is false (the named claim evaluates to %r)" % (other[0], vals.get(claim_name)), info
+        return False, "claim evaluates to %r natively" % (vals.get(claim_name),), info
+
+
+def e57_scenarios(tier="quick"):
+    rp = BlobE57Replay(_be_op, _br_extra, _br_rebuild)
+    return [Scenario("E57Reader::blob over any device: sound, and complete for a well-formed section anywhere in the file", blob_e57_scenario(3000), blob_e57_claims, max_paths=800, replayer=rp)]
+
+
 def _br_extra(model, s):
     return dict(boff=mval(model, s.boff), blen=mval(model, s.blen))
 
